@@ -39,7 +39,7 @@ CLAIMS = {
         note="Not a proof; bash execution not covered.",
         design="§7 C09", tech="Kani full-domain harnesses on the extracted symbol type Inp (equality is structural; same-text literals are one symbol: fails = known finding D10); bounded exact determinism / language comparison on the real automaton (stand-in)", cat="proof"),
     "C11": dict(
-        text="Verus proves on the real check.rs: specialize_nonterminals (rule R3): at a nonterminal reference the lookup order is target-shell definition, then built-in, then plain command fallback, with zsh_compadd set only for zsh and level/span kept; resolve_nonterminals, for the whole tree: a reference to a defined name is replaced by that definition's tree, and the set of names the result still refers to is exactly the undefined names of the input plus the names referred to by the definitions used (so nothing defined survives once its definitions are closed); make_builtin_specializations: the table's domain is exactly PATH and DIRECTORY and the directory command differs from the path command for every shell; every pass leaves the arena a well-formed extension of the old one. The property-level statement is decided by exhaustive enumeration of the property's own finite quantifier (3 names x 32 definition subsets x 3 reference positions x 4 shells = 1152 grammars) on the real pipeline.",
+        text="Verus proves on the real check.rs: specialize_nonterminals (rule R3), for the whole tree: the result is the same tree in which every reference the target shell has a command for has become that command (lookup order: target-shell definition, then built-in, then plain command fallback; zsh_compadd set only for zsh; level/span kept) and nothing else changed; resolve_nonterminals, for the whole tree: a reference to a defined name is replaced by that definition's tree, and the set of names the result still refers to is exactly the undefined names of the input plus the names referred to by the definitions used (so nothing defined survives once its definitions are closed); make_builtin_specializations: the table's domain is exactly PATH and DIRECTORY and the directory command differs from the path command for every shell; every pass leaves the arena a well-formed extension of the old one. The property-level statement is decided by exhaustive enumeration of the property's own finite quantifier (3 names x 32 definition subsets x 3 reference positions x 4 shells = 1152 grammars) on the real pipeline.",
         note="Assumed: UstrMap/Ustr shims, derived Clone of Expr, rules R3/R10/R7. get_specializations, the resolution order and the from_grammar glue (incl. 'plain definition overrides the built-in') are bounded only; emitted script bodies not covered; termination unverified.",
         design="§7 C11", tech="Verus contracts on the extracted specialize_nonterminals / resolve_nonterminals / make_builtin_specializations; exhaustive enumeration of the property's finite quantifier on the real pipeline", cat="proof"),
     "C13": dict(
@@ -47,7 +47,7 @@ CLAIMS = {
         note="nom_locate is a shim; the nom parser functions are not under contract (bounded only); diagnostic positions after escapes (D11) not yet checked.",
         design="§7 C13", tech="Verus contracts on the span constructors/accessors; bounded span stand-in on the real parser", cat="proof"),
     "C15": dict(
-        text="Verus proves the bookkeeping the warnings are computed from: specialize_nonterminals at a nonterminal reference (the name leaves the unused-definitions map and its target-shell definition is marked used, nothing else changes); resolve_nonterminals for the whole tree (exactly the defined names the tree refers to are struck off the unused list, values untouched); get_nonterm_refs (the reported undefined names are exactly the names the final tree still refers to). Bounded stand-in: undefined / unused-definition / unused-specialisation sets returned by the real ValidGrammar::from_grammar equal the sets the property prescribes, for all 2-name configurations (7 definition kinds x 3 reference positions each) and seeded random 3-name ones incl. `_`, PATH, DIRECTORY, x 4 shells.",
+        text="Verus proves the bookkeeping the warnings are computed from: specialize_nonterminals for the whole tree (exactly the referenced names leave the unused-definitions map and exactly the referenced target-shell definitions are marked used, commands and spans untouched); resolve_nonterminals for the whole tree (exactly the defined names the tree refers to are struck off the unused list, values untouched); get_nonterm_refs (the reported undefined names are exactly the names the final tree still refers to). Bounded stand-in: undefined / unused-definition / unused-specialisation sets returned by the real ValidGrammar::from_grammar equal the sets the property prescribes, for all 2-name configurations (7 definition kinds x 3 reference positions each) and seeded random 3-name ones incl. `_`, PATH, DIRECTORY, x 4 shells.",
         note="The from_grammar glue (which trees the passes are applied to, `<_>` and built-in exceptions) is bounded only; warning printing in main.rs covered by the CLI stand-in only.",
         design="§7 C15", tech="Verus contracts on the extracted specialize_nonterminals / resolve_nonterminals / get_nonterm_refs; bounded set comparison on the real pipeline", cat="proof"),
     "C16": dict(
